@@ -860,6 +860,197 @@ class ConsumePathSepWin(ConsumePathSep):
 
 ALL_SCAN = [SIInit(), SINext(), SIRewind(), SIMatch(), ConsumePathSep(), ConsumePathSepWin()]
 
+
+# --------------------------------------------------------------------------------------------------------------- util.norm_pattern
+class NormPattern(Contract):
+    """util.norm_pattern: nothing is touched unless separator normalisation or RAWCHARS is asked for; otherwise every token the table of the
+    pattern's own type (RE_NORM for str, RE_BNORM for bytes) finds is rewritten by `norm`."""
+    module, qual, props = 'util', 'norm_pattern', ('C20', 'C18', 'C17')
+    is_bytes = False
+    SUBN = z3.Function('normalised_by', Obj, z3.StringSort(), z3.StringSort())
+
+    def inputs(self):
+        self.pat, self.norm, self.raw = z3.String('pattern'), z3.Bool('normalize'), z3.Bool('is_raw_chars')
+        return dict(params=dict(pattern=Str(self.pat, is_bytes=self.is_bytes), normalize=Bool(self.norm), is_raw_chars=Bool(self.raw)), pre=[], ghost={'$sub': None})
+
+    @property
+    def hooks(self):
+        me = self
+
+        def h_sub(eng, node, st, args):
+            rx = eng.ev(node.func.value, st)
+            fn = args[0]
+            st.ghost['$sub'] = (rx, fn, args[1], dict(st.env))
+            if args[1].kind != 'str':
+                raise pyvc.Unsupported('sub on a non-string')
+            return Str(me.SUBN(pyvc.to_obj(rx), args[1].t), is_bytes=args[1].a.get('is_bytes', False))
+        return {'.sub': h_sub}
+
+    @property
+    def ensures(self):
+        me = self
+
+        def post(c):
+            sub = c.st.ghost['$sub']
+            if c.ret.kind != 'str' or c.ret.a.get('is_bytes', False) != me.is_bytes:
+                return z3.BoolVal(False)
+            idle = z3.And(z3.Not(me.norm), z3.Not(me.raw))
+            if sub is None:
+                return z3.And(idle, c.ret.t == me.pat)
+            rx, fn, text, env = sub
+            table = z3.Const('global:RE_BNORM' if me.is_bytes else 'global:RE_NORM', Obj)
+            ok_fn = fn.kind == 'fn' and fn.a['node'].name == 'norm'
+            # the closure sees the constants of the pattern's own type
+            consts_ok = (env.get('is_bytes') is not None and env['is_bytes'].kind == 'bool' and z3.is_true(z3.simplify(env['is_bytes'].t)) == me.is_bytes and
+                         env.get('multi_slash') is not None and env['multi_slash'].kind == 'str' and env['multi_slash'].a.get('is_bytes', False) == me.is_bytes)
+            ms = env['multi_slash'].t == z3.StringVal('\\\\\\\\') if consts_ok else z3.BoolVal(False)
+            return z3.And(z3.Not(idle), z3.BoolVal(bool(ok_fn and consts_ok)), ms, pyvc.to_obj(rx) == table, text.t == me.pat, c.ret.t == me.SUBN(table, me.pat))
+        nm = 'util.norm_pattern.unchanged_unless_normalize_or_RAWCHARS;else_every_token_of_the_table_of_the_patterns_own_type_goes_through_norm' + ('[bytes]' if self.is_bytes else '')
+        return [(nm, ('C20', 'C18', 'C17'), post)]
+
+
+class NormPatternBytes(NormPattern):
+    is_bytes = True
+
+
+INTF = z3.Function('int_of_text', z3.StringSort(), z3.IntSort(), z3.IntSort())
+
+
+class NormFn(Contract):
+    r"""The rewriting callback `norm_pattern.norm` (closure variables are inputs).  A match of RE_NORM / RE_BNORM takes exactly one alternative:
+    1 separator (`/` or `\/`), 2 simple escape, 3 numeric escape (4 = its octal digits), then for str 5 `\N{...}`, 6 other escape, 7 incomplete
+    `\N \U \u \x`; for bytes 5 other escape, 6 incomplete `\x`.  Absent groups are modelled as empty text (the code only tests their truth value).
+    RAWCHARS off: nothing is decoded.  RAWCHARS on: exactly the Python escapes are decoded, other escapes pass, incomplete ones raise SyntaxError."""
+    module, qual, props = 'util', 'norm_pattern.norm', ('C20', 'C18', 'C10')
+    is_bytes = False
+    allowed_raises = ('SyntaxError', 'KeyError')
+    assumptions = ('a match of RE_NORM / RE_BNORM takes exactly one top-level alternative, whose group is non-empty; groups that did not take part are modelled as empty text instead of None '
+                   '(norm only tests their truth value); int(), chr(), bytes([..]), unicodedata.lookup are uninterpreted (chr of a hexadecimal value may raise ValueError / OverflowError, chr of 1-3 octal digits cannot, lookup may raise KeyError)',)
+
+    @property
+    def ngroups(self):
+        return 6 if self.is_bytes else 7
+
+    def inputs(self):
+        self.norm, self.raw = z3.Bool('normalize'), z3.Bool('is_raw_chars')
+        self.which = z3.Int('alternative_taken')
+        self.octal = z3.Bool('numeric_escape_is_octal')
+        self.g = {i: z3.String(f'group{i}') for i in range(1, self.ngroups + 1)}
+        pre = [self.which >= 1, self.which <= self.ngroups, self.which != 4]
+        for i, t in self.g.items():
+            if i == 4:
+                pre.append((z3.Length(t) > 0) == z3.And(self.which == 3, self.octal))
+            else:
+                pre.append((z3.Length(t) > 0) == (self.which == i))
+        pre.append(z3.Implies(self.which == 1, z3.Or(self.g[1] == z3.StringVal('/'), self.g[1] == z3.StringVal('\\/'))))
+        params = dict(m=ObjV(z3.Const('m', Obj)), normalize=Bool(self.norm), is_raw_chars=Bool(self.raw), is_bytes=Bool(self.is_bytes),
+                      multi_slash=Str('\\\\\\\\', is_bytes=self.is_bytes), slash=Str('\\', is_bytes=self.is_bytes))
+        return dict(params=params, pre=pre, ghost={})
+
+    def g0(self):
+        t = self.g[self.ngroups]
+        for i in range(self.ngroups - 1, 0, -1):
+            if i != 4:
+                t = z3.If(self.which == i, self.g[i], t)
+        return t
+
+    @property
+    def forking(self):
+        return () if self.is_bytes else ('chr', 'unicodedata.lookup')
+
+    @property
+    def hooks(self):
+        me = self
+
+        def h_group(eng, node, st, args):
+            i = z3.simplify(args[0].t if args[0].kind in ('int', 'bv') else None)
+            k = i.as_long()
+            if k == 0:
+                return Str(me.g0(), is_bytes=me.is_bytes)
+            if k not in me.g:
+                raise pyvc.Unsupported(f'group {k}')
+            return Str(me.g[k], is_bytes=me.is_bytes)
+
+        def h_start(eng, node, st, args):
+            return Int(z3.Int(pyvc.fresh('m_start')))
+
+        def h_int(eng, node, st, args):
+            if len(args) != 2 or args[0].kind != 'str':
+                raise pyvc.Unsupported('int()')
+            base = args[1].t if args[1].kind == 'int' else z3.BV2Int(args[1].t)
+            return Int(INTF(args[0].t, base))
+
+        def h_chr(eng, node, st, args):
+            t = args[0].t
+            if z3.is_app(t) and t.decl().name() == 'int_of_text' and z3.is_int_value(t.arg(1)) and t.arg(1).as_long() == 8:
+                return U('fn.chr', *args)          # one to three octal digits: at most 0o777, always a character
+            ok = z3.Bool(pyvc.fresh('code_point_is_valid'))
+            st.ghost['$chr'] = ok
+            big = z3.Bool(pyvc.fresh('code_point_overflows'))
+            return Fork([(ok, U('fn.chr', *args), None), (z3.And(z3.Not(ok), z3.Not(big)), Outcome('raise', exc='ValueError'), None),
+                         (z3.And(z3.Not(ok), big), Outcome('raise', exc='OverflowError'), None)])
+
+        def h_lookup(eng, node, st, args):
+            ok = z3.Bool(pyvc.fresh('name_is_known'))
+            return Fork([(ok, U('fn.lookup', *args), None), (z3.Not(ok), Outcome('raise', exc='KeyError'), None)])
+        return {'.group': h_group, '.start': h_start, 'int': h_int, 'chr': h_chr, 'unicodedata.lookup': h_lookup}
+
+    def incomplete(self):
+        return self.which == self.ngroups
+
+    def other_escape(self):
+        return self.which == self.ngroups - 1
+
+    @property
+    def ensures(self):
+        me = self
+        g = self.g
+
+        def post(c):
+            r = pyvc.to_obj(c.ret)
+            S = lambda t: pyvc.to_obj(Str(t, is_bytes=me.is_bytes))      # noqa: E731
+            sep = z3.If(z3.And(me.norm, z3.Length(g[1]) > 1), S(z3.StringVal('\\\\\\\\')), S(g[1]))
+            bst = U('getitem', ObjV(z3.Const('global:BACK_SLASH_TRANSLATION', Obj)), Str(g[2], is_bytes=me.is_bytes)).t
+            if me.is_bytes:
+                octal = U('fn.bytes', V('tuple', None, items=[Flags(z3.Int2BV(INTF(g[4], z3.IntVal(8)), BV) & z3.BitVecVal(255, BV))])).t
+                hexa = U('fn.bytes', V('tuple', None, items=[Int(INTF(z3.SubString(g[3], 2, z3.Length(g[3]) - 2), z3.IntVal(16)))])).t
+            else:
+                octal = U('fn.chr', Int(INTF(g[4], z3.IntVal(8)))).t
+                hexa = U('fn.chr', Int(INTF(z3.SubString(g[3], 2, z3.Length(g[3]) - 2), z3.IntVal(16)))).t
+            whole = S(me.g0())
+            cases = [z3.Implies(me.which == 1, r == sep),
+                     z3.Implies(me.which == 2, r == z3.If(me.raw, bst, S(g[2]))),
+                     z3.Implies(z3.And(me.which == 3, z3.Not(me.raw)), r == whole),
+                     z3.Implies(z3.And(me.which == 3, me.raw, me.octal), r == octal),
+                     z3.Implies(z3.And(me.which == 3, me.raw, z3.Not(me.octal)), r == hexa),
+                     z3.Implies(me.other_escape(), r == whole),
+                     z3.Implies(me.incomplete(), z3.And(z3.Not(me.raw), r == whole))]
+            if not me.is_bytes:
+                lk = U('fn.lookup', Str(z3.SubString(g[5], 3, z3.Length(g[5]) - 4))).t
+                cases.append(z3.Implies(me.which == 5, r == z3.If(me.raw, lk, whole)))
+            return z3.And(*cases)
+        nm = 'norm.RAWCHARS_off:nothing_decoded;on:exactly_the_Python_escapes_decoded_(octal_&0xFF_for_bytes),other_escapes_pass;separator_rewritten_only_under_normalize'
+        return [(nm + ('[bytes]' if self.is_bytes else ''), ('C20', 'C18', 'C10'), post)]
+
+    @property
+    def exc_ensures(self):
+        me = self
+
+        def post(c):
+            if pyvc.isa(c.exc, 'KeyError'):
+                return z3.And(z3.BoolVal(not me.is_bytes), me.raw, me.which == 5)
+            bad_value = z3.And(me.which == 3, z3.Not(me.octal), z3.BoolVal(not me.is_bytes))
+            return z3.And(z3.BoolVal(pyvc.isa(c.exc, 'SyntaxError')), me.raw, z3.Or(me.incomplete(), bad_value))
+        return [('norm.SyntaxError_only_under_RAWCHARS_for_an_incomplete_escape_or_a_code_point_that_is_no_character;KeyError_only_from_a_name_lookup' + ('[bytes]' if self.is_bytes else ''),
+                 ('C20', 'C10'), post)]
+
+
+class NormFnBytes(NormFn):
+    is_bytes = True
+
+
+ALL_NORM = [NormPattern(), NormPatternBytes(), NormFn(), NormFnBytes()]
+
 ALL_EXP = [IterPatternsFn(), IterPatternsSeq(), IterPatternsBytes(), TildePos(), TildePosBytes(), ExpandBraces(), EscapeFn(), EscapeFnBytes()]
 
-ALL = [SetAfterStart(), SetStartDir(), ResetDirTrack(), UpdateDirState(), RestrictSequence(), RestrictExtendedSlash(), ParseFrame(), ParseBytes()] + ALL_EXP + ALL_SCAN
+ALL = [SetAfterStart(), SetStartDir(), ResetDirTrack(), UpdateDirState(), RestrictSequence(), RestrictExtendedSlash(), ParseFrame(), ParseBytes()] + ALL_EXP + ALL_SCAN + ALL_NORM
